@@ -54,7 +54,30 @@ func (r *AnthropicRequest) Validate() error {
 		}
 	}
 
+	// an unknown tool_choice would otherwise be sent upstream as "auto"
+	if r.ToolChoice != nil {
+		if err := validateToolChoice(r.ToolChoice); err != nil {
+			return err
+		}
+	}
+
 	return nil
+}
+
+// validateToolChoice accepts the string and object forms of auto / any / none and the object
+// form of tool (whose name the conversion checks)
+func validateToolChoice(toolChoice interface{}) error {
+	choice, ok := toolChoice.(string)
+	if choiceMap, isMap := toolChoice.(map[string]interface{}); isMap {
+		choice, ok = choiceMap["type"].(string)
+		if ok && choice == "tool" {
+			return nil
+		}
+	}
+	if ok && (choice == "auto" || choice == "any" || choice == "none") {
+		return nil
+	}
+	return fmt.Errorf("tool_choice must be auto, any, none or a tool object, got %v", toolChoice)
 }
 
 // validate rejects what the conversion would otherwise forward as is or drop without a trace:
